@@ -95,6 +95,23 @@ def run(rep, ctx):
         for req in [base] + variants(base) + same_effective(base):
             plain.append(req)
     cases = [mk(r) for r in plain]
+    # parameters sent in a form-encoded request body are effective parameters too (they are merged with the query, later values win):
+    # the same query with a different body is a different request
+    import httpkit
+    body_cases = []
+    for differ, raw in bases:
+        for extra in ([('b', 'http://site.test/a2')], [('a', 'http://site.test/a2'), ('b', A)], [('extra', '1')], [('include', 'deletions')], [('b', B)]):
+            c = mk((differ, list(raw) + list(extra)))
+            c['qs'] = httpkit.quote_qs(raw)
+            c['req_body'] = httpkit.quote_qs(extra)
+            c['req_headers'] = {'Content-Type': 'application/x-www-form-urlencoded'}
+            body_cases.append(c)
+        c = mk((differ, list(raw)))          # everything in the body, nothing in the query
+        c['qs'] = ''
+        c['req_body'] = httpkit.quote_qs(raw)
+        c['req_headers'] = {'Content-Type': 'application/x-www-form-urlencoded'}
+        body_cases.append(c)
+    cases += body_cases
     # error requests carry no validator
     cases += [mk(('nope', [('a', A), ('b', B)])), mk(('length', [('a', A)])), mk(('length', [('a', 'ftp://x'), ('b', B)])),
               mk(('length', [('a', A), ('b', 'http://down.test/')]))]
@@ -149,6 +166,14 @@ def run(rep, ctx):
         others = [x[0][0] for k, x in etag_of.items() if k != effective(base)][:3]
         for inm in inm_values(e) + others:
             cond.append((mk(base, inm), e))
+    # the validator of the query-only request presented with a body that changes an effective parameter
+    for bc in body_cases:
+        k = effective((bc['differ'], bc['raw_query']))
+        base = [b for b in bases if b[0] == bc['differ']][0]
+        if k in etag_of and effective(base) in etag_of:
+            c2 = dict(bc)
+            c2['req_headers'] = dict(bc['req_headers'], **{'If-None-Match': etag_of[effective(base)][0][0]})
+            cond.append((c2, etag_of[k][0][0]))
     # a validator of request X presented on request Y (cross use) must not give 304
     keys = list(etag_of)
     for _ in range(30 if tier == 'quick' else 150):
@@ -182,6 +207,31 @@ def run(rep, ctx):
                                                                          'case': sc.describe(c)}, no_input=True)
     rep.obligation('observer: 304 exactly when If-None-Match is the wildcard or contains the validator, with no effects (%d conditional requests)' % len(cond), n_bad == 0)
     rep.obligation('correspondence: conditional requests model = implementation', n_corr2 == 0)
+    # error responses of an application that is shutting down (the differ pool refuses work) carry no validator either
+    kit = httpkit.Kit()
+    n_term = 0
+    try:
+        for differ, raw in bases:
+            for when in ('terminating', 'normal'):
+                kit.app.terminating = (when == 'terminating')
+                obs = kit.request('/' + differ + '?' + httpkit.quote_qs(raw), upstream=UP)
+                rep.count(('terminating', differ, when))
+                f = []
+                if when == 'terminating' and obs.status < 400:
+                    f.append('a diff request of an application that is shutting down was answered %s' % obs.status)
+                if obs.status >= 400 and obs.headers.get('Etag') is not None:
+                    f.append('error response (%s) of an application that is shutting down carries an Etag' % obs.status)
+                if obs.status >= 400 and not (isinstance(obs.json, dict) and obs.json.get('code') == obs.status):
+                    f.append('error response is not the JSON error object')
+                if f:
+                    n_term += 1
+                    if n_term <= 2:
+                        rep.violation('terminating-%d' % n_term, {'what': f, 'request': '/' + differ + '?' + httpkit.quote_qs(raw), 'application.terminating': when == 'terminating',
+                                                                  'status': obs.status, 'etag': obs.headers.get('Etag')})
+    finally:
+        kit.app.terminating = False
+        kit.close()
+    rep.obligation('observer: error responses while the application is shutting down carry no validator', n_term == 0)
     rep.sample(sc.describe(cases[1]))
     rep.sample(sc.describe(cond[2][0]))
 
